@@ -151,9 +151,13 @@ def run(ctx):
     from .C18 import check as absence_editors
     absence_editors(ctx)
     # the loaded project's time / status / unit_timedelta are what write_simple_json saved (C16 project table)
-    from .C16 import r16_1
+    from .C16 import r16_1, r16_7
     from ..jsontab import JsonTables
-    r16_1(ctx, JsonTables(ctx))
+    J = JsonTables(ctx)
+    r16_1(ctx, J)
+    # ... and a sub-project task that is rebuilt through its constructor (a reloaded parent project) keeps the relation of its unit
+    # time to the parent's only if the constructor hands every saved value on to the base class
+    r16_7(ctx, J)
     # a sub-project result that comes from a backward run: its absence steps are re-mapped by reverse_log_information
     from .C18 import r18_5
     r18_5(ctx)
